@@ -204,9 +204,10 @@ fn check_uni(c: &UniCase) -> CheckResult {
         }
     };
     let same = match (&r1, &r2) {
-        // the event-source analysis reports the failing offset; FIFO has no per-offset search
-        (Res::Diverged { limit: l1, .. }, Res::Diverged { limit: l2, .. }) => l1 == l2,
-        (a, b) => a == b,
+        (Res::Ok(a), Res::Ok(b)) => a == b,
+        (Res::Ok(_), _) | (_, Res::Ok(_)) => false,
+        // both diverge (which offset an error names differs legitimately between analyses)
+        _ => true,
     };
     if !same {
         return Err(format!("{:?}: {} = {:?} but {} = {:?} (limit {})", c.relation, n1, r1, n2, r2, c.limit));
@@ -272,7 +273,12 @@ fn check_sup(c: &SupCase) -> CheckResult {
             }
         }
     }
-    if res[0] != res[1] || res[0] != res[2] {
+    let same = |a: &Res, b: &Res| match (a, b) {
+        (Res::Ok(x), Res::Ok(y)) => x == y,
+        (Res::Ok(_), _) | (_, Res::Ok(_)) => false,
+        _ => true,
+    };
+    if !same(&res[0], &res[1]) || !same(&res[0], &res[2]) {
         return Err(format!(
             "dedicated processor: {:?}, Periodic({p},{p}): {:?}, Constrained({p},{p},{p}): {:?}",
             res[0],
